@@ -12,6 +12,7 @@ import sys
 
 from check_build import Scenario, call, canon
 from common import use_repo
+import conc
 from conc import run_schedule
 
 use_repo()
@@ -91,7 +92,12 @@ def explore(seed, n, opts):
             targs = [a] * nthreads
         else:
             targs = [rng.randrange(len(probes)) for _ in range(nthreads)]
-        if mode == "chain":
+        # arguments whose own method exists but whose chain of call_next falls off the end: the continuation lookup
+        # then goes through `__missing__` and reads `all[key]` (a path that hits no cached entry)
+        falls = [i for i in range(k) if ref[i][0] == "error"]
+        if mode in ("miss-equal", "chain") and falls and rng.random() < 0.6:
+            targs = [rng.choice(falls)] * nthreads
+        elif mode == "chain":
             # prefer arguments whose sequential call goes through call_next
             deep = [i for i, r in enumerate(ref) if r[0] == "ok" and isinstance(r[1], tuple) and len(r[1]) > 2 and isinstance(r[1][2], tuple)]
             if deep:
@@ -101,10 +107,17 @@ def explore(seed, n, opts):
         _, lengths = one_run(sc, tags, mode, targs, routes, [(0, None)], probes, ref)
         n0 = max(1, lengths[0])
         positions = list(range(0, n0 + 1))
+        wh = (conc.LAST.get("wheres") or [[]])[0]
+        # every position inside the publication of a resolution and inside the hand-over of a build, plus a sample
+        hot = [i for i, f in enumerate(wh) if f in ("resolve", "__missing__", "ensure_compiled", "compile", "first_entry")]
+        hot = [i for i in hot if i <= n0]
         if opts.get("exhaustive"):
             cuts = positions
         else:
-            cuts = sorted(set(rng.sample(positions, min(per, len(positions)))))
+            if len(hot) > 8 * per:
+                hot = sorted(rng.sample(hot, 8 * per))
+            cuts = sorted(set(rng.sample(positions, min(per, len(positions)))) | set(hot) | {i + 1 for i in hot if i + 1 <= n0})
+        bump("cut positions inside resolve / build hand-over", len(hot))
         for c in cuts:
             if rng.random() < 0.3 and nthreads == 2:
                 m = rng.randint(1, max(1, lengths[1] if len(lengths) > 1 and lengths[1] else n0))
